@@ -385,8 +385,8 @@ def check_C11(tier, seed, replay=None):
 
 def check_C19(tier, seed, replay=None):
     return ref_family_check("C19", tier, seed,
-                            [("wf", "", 3000), ("wf", "bin", 1500), ("wf", "func", 1000)],
-                            [("wf", "", 60000), ("wf", "bin", 30000), ("wf", "func", 20000), ("wf", "deep", 20000)])
+                            [("wf", "", 3000), ("wf", "bin", 1500), ("wf", "func", 1000), ("wf", "hist", 400)],
+                            [("wf", "", 60000), ("wf", "bin", 30000), ("wf", "func", 20000), ("wf", "deep", 20000), ("wf", "hist", 8000)])
 
 
 def check_C01(tier, seed, replay=None):
